@@ -782,6 +782,8 @@ static PyObject* base_syrk(PyObject *self, PyObject *args, PyObject *kwrds)
 
   int n = (trans == 'N') ? X_NROWS(A) : X_NCOLS(A);
   int k = (trans == 'N') ? X_NCOLS(A) : X_NROWS(A);
+  if (X_NROWS(C) != n || X_NCOLS(C) != n)
+    PY_ERR_TYPE("dimensions of C do not match");
   if (n == 0) return Py_BuildValue("");
 
   if (ao && convert_num[id](&a, ao, 1, 0)) err_type("alpha");
